@@ -410,6 +410,9 @@ def _bcd_epoch(X, Y, W, XW, lc, datafit, penalty, ws):
     n_tasks = Y.shape[1]
     for j in ws:
         if lc[j] == 0.:
+            # all-zero column: the datafit does not depend on W[j], only the penalty acts
+            # (a warm-started row must still be shrunk, as AndersonCD does for a null column)
+            W[j, :] = penalty.prox_1feat(W[j, :], 1000., j)
             continue
         Xj = X[:, j]
         old_W_j = W[j, :].copy()  # copy is very important here
@@ -461,6 +464,8 @@ def _bcd_epoch_sparse(X_data, X_indptr, X_indices, Y, W, XW, lc, datafit, penalt
     """
     for j in ws:
         if lc[j] == 0.:
+            # all-zero column: only the penalty acts on W[j]
+            W[j, :] = penalty.prox_1feat(W[j, :], 1000., j)
             continue
         old_W_j = W[j, :].copy()
         grad_j = datafit.gradient_j_sparse(X_data, X_indptr, X_indices, Y, XW, j)
